@@ -4,6 +4,7 @@ Property theorems only; helper lemmas live in Lemmas/.
 -/
 import DtailModel.Lemmas.Wire
 import DtailModel.Lemmas.Fast
+import DtailModel.Lemmas.GenReader
 namespace Dtail.C01
 open Dtail
 
@@ -18,6 +19,33 @@ theorem C01_reader (m : Nat) (bs : Bytes) : (readLines m bs).flatten = insertNL 
 /-- Every raw line has at most one newline, at its end, and the last may lack one. -/
 theorem C01_reader_lines_wf (m : Nat) (bs : Bytes) : ∀ l ∈ readLines m bs, LineWF l :=
   readLines_wf m bs
+
+/-- **Tie G: the server's byte-wise reader as translated from the working tree sends the model's lines.**  `readFile.read`,
+    `handleReadByte`, `handleReadError` of internal/io/fs/readfile.go, translated on this run (the reader is the bytes it has
+    not delivered yet; the context is never cancelled and the consumer takes every line): for every file content `bs`, a
+    reader that does not wait at the end of the file (cat, grep, mapreduce), started with nothing sent and fuel for the
+    bytes, returns no error, never panics, and has handed to the filter exactly `readLines m bs` — whose concatenation is the
+    file with a newline after each run of `m` bytes (`C01_reader`). -/
+theorem C01_generated_reader_sends_model_lines (ext : Go.Ext) (m : Nat) (hm : ext.maxLineLength = (m : Int))
+    (f : Gen.Reader.readFile) (hs : f.seekEOF = false) (hr : f.rawLines = []) (fd bs : Bytes) (hf : bs.length < ext.fuel) :
+    ∃ f', Gen.Reader.readFile.read ext f () fd bs () () = Outcome.ok (f', none) ∧
+      f'.rawLines = readLines m bs ∧ f'.rawLines.flatten = insertNL m 0 bs := by
+  obtain ⟨f', h1, h2⟩ := GenReader.read_refines ext m hm f hs hr fd bs hf
+  exact ⟨f', h1, h2, by rw [h2]; exact readLines_flatten m bs⟩
+
+/-- one byte of the translated reader is one `stepByte` of the model -/
+theorem C01_generated_byte_step (ext : Go.Ext) (m : Nat) (hm : ext.maxLineLength = (m : Int)) (f : Gen.Reader.readFile)
+    (b : UInt8) (msg : Bytes) :
+    ∃ f' msg', Gen.Reader.readFile.handleReadByte ext f () b () (msg ++ [b]) = (f', Gen.Reader.nothing, msg') ∧
+      (⟨msg', f'.rawLines⟩ : RS) = stepByte m ⟨msg, f.rawLines⟩ b ∧ f'.seekEOF = f.seekEOF :=
+  GenReader.handleReadByte_spec ext m hm f b msg
+
+/-- non-vacuity: a line longer than the limit and an unterminated last line -/
+example :
+    let ext : Go.Ext := { parseFloat := fun _ => (0, none), maxLineLength := 3, fuel := 16 }
+    (match Gen.Reader.readFile.read ext {} () [] (b!"abcde\nxy") () () with
+      | .ok (f, none) => f.rawLines
+      | _ => []) = [b!"abc\n", b!"de\n", b!"xy"] := by decide
 
 /-- Transport chunk boundaries are irrelevant to the client. -/
 theorem C01_chunking (s : CS) (a b : Bytes) :
